@@ -241,3 +241,11 @@ package parse
 //@   ensures result == node_type(self)
 //@ func (Node).Statement
 //@   nopanic
+//@ func (Node).ErrorContext
+//@ func (Node).ChildByType
+//@   nopanic
+//@   ensures result == node_child_by_type(self, t)
+//@ func (HasArgument).ArgBool
+//@   ensures result == node_argbool(self)
+//@ func (HasArgument).ArgStatus
+//@   ensures result == node_argstatus(self)
